@@ -192,8 +192,26 @@ def designspace_section(ctx):
             plain[0]["contours"] = []
             plain[0]["components"] = [(plain[1]["name"], (Fr(-1), Fr(0), Fr(0), Fr(1), Fr(700) + Fr(1, 2), Fr(1, 4)))]
             ctx.klass("sem:designspace: contours in one master, mirrored component in the other")
+        flat_pre = i % 3 == 2
+        if flat_pre:
+            # flattenComponents asked for as a PRE-filter by the masters' libs (it has no option of its own on the CFF paths):
+            # nested components are folded with each master's OWN inner offsets
+            for k_, m_ in enumerate(masters):
+                m_.setdefault("lib", {})["com.github.googlei18n.ufo2ft.filters"] = [{"name": "flattenComponents", "pre": True}]
+                leaf = next((g for g in m_["glyphs"] if g["contours"] and not g["components"]), None)
+                if leaf is not None:
+                    # always: a composite of a composite whose INNER offset differs from master to master
+                    one_ = (Fr(1), Fr(0), Fr(0), Fr(1))
+                    m_["glyphs"] = [g for g in m_["glyphs"] if g["name"] not in ("nest.inner", "nest.outer")] + [
+                        {"name": "nest.inner", "unicodes": [], "width": Fr(500), "contours": [], "anchors": [],
+                         "components": [(leaf["name"], one_ + (Fr(20 + 40 * k_) + Fr(1, 2), Fr(32 + 10 * k_) + Fr(1, 4)))]},
+                        {"name": "nest.outer", "unicodes": [], "width": Fr(600), "contours": [], "anchors": [],
+                         "components": [("nest.inner", one_ + (Fr(7) + Fr(1, 2), Fr(3) + Fr(1, 4))), (leaf["name"], one_ + (Fr(300) + Fr(1, 2), Fr(1, 4)))]}]
+                    if m_.get("glyphOrder"):
+                        m_["glyphOrder"] = [g["name"] for g in m_["glyphs"]]
+            ctx.klass("sem:designspace: flattenComponents as a pre-filter from the lib")
         case = {"function": how, "options": {"roundTolerance": tol_opt}, "lib": lib, "font": jsonable(base), "last_master": jsonable(masters[1]),
-                "level": "designspace CFF"}
+                "flatten_pre_filter": flat_pre, "level": "designspace CFF"}
         ctx.count(); ctx.klass("sem:designspace:%s/tol=%s" % (how, tol_opt)); ctx.nontriv(("ds", i, ctx.scale))
         try:
             ds, fonts = dsgen.make_designspace(rng, masters, lib, instances=False)
